@@ -299,6 +299,11 @@ def c07(res, tier, seed):
                       ("missing", incdir + "/nosuch.yar"), ("bad", incdir + "/bad.yar"), ("nested-dir", incdir + "/nested.yar"), ("empty-name", "")):
         for rep in range(3):
             inc_cases.append(("include-real-" + nmk, 'rule before { condition: true }\ninclude "%s"\nrule after { condition: true }' % path, False))
+    # relative include paths of every length around the 1024-byte path buffer of the lexer (joined to the directory of a source
+    # that has a file name)
+    for n in (10, 500, 900, 980, 1000, 1015, 1023, 1024, 1030, 1500, 3000, 8000):
+        for rep in range(4):       # through all four entry points (the case index selects it)
+            inc_cases.append(("include-relative-long-%d" % n, 'rule before { condition: true }\ninclude "%s.yar"\nrule after { condition: true }' % ("d/" * (n // 2 - 2) + "x" * (n % 2)), False))
     lines = ["init", "opt iterlog 0", "opt defaultinclude 1"]
     for k, (kind, src, good) in enumerate(inc_cases * (1 if tier == "quick" else 4)):
         lines += ["note c%d" % k, "compiler 0", "%s 0 - %s" % (["add", "addfile", "addfd", "addbytes"][k % 4], yv.hx(src.encode())), "cdestroy 0"]
